@@ -86,6 +86,41 @@ const replayByteCap = 64
 // minimise re-solves the failing query asking for small inputs.
 func minimise(workdir, hdr string, q *Query, x *Exec, timeoutS int) map[string]string {
 	var extra strings.Builder
+	pinned := false
+	if theCatalogue != nil {
+		if ent, ok := theCatalogue.Entries[x.key]; ok && len(ent.Pin) > 0 {
+			// evaluate the pins in a fresh entry state (same input symbol names as the failing query)
+			x2 := newExec(x.prog, x.specs, x.fn, x.con, x.tparam)
+			st, argv := x2.entryState()
+			mark := len(st.script)
+			x2.fresh = 5000000
+			env := x2.contractEnv(st, argv, snapshotMem(st))
+			ok := true
+			var pins []string
+			for _, p := range ent.Pin {
+				e, err := parseCExpr(p)
+				if err != nil {
+					ok = false
+					break
+				}
+				t, err := env.evalBool(e)
+				if err != nil {
+					ok = false
+					break
+				}
+				pins = append(pins, t)
+			}
+			if ok {
+				for _, c := range st.script[mark:] {
+					extra.WriteString(c + "\n")
+				}
+				for _, t := range pins {
+					extra.WriteString("(assert " + t + ")\n")
+				}
+				pinned = true
+			}
+		}
+	}
 	if aliasWant {
 		for _, in := range q.Inputs {
 			if strings.HasSuffix(in.Desc, "#2") {
@@ -99,12 +134,40 @@ func minimise(workdir, hdr string, q *Query, x *Exec, timeoutS int) map[string]s
 			extra.WriteString(fmt.Sprintf("(assert (bvule %s %s))\n", in.Name, bvLit(replayByteCap, 64)))
 		}
 	}
-	q2 := &Query{Script: q.Script + extra.String(), Inputs: q.Inputs, Expect: "unsat"}
+	// prefer a counterexample in the first iteration of every cut loop (such a state is reachable)
+	var first strings.Builder
+	for _, li := range q.LoopInits {
+		first.WriteString("(assert (= " + li[0] + " " + li[1] + "))\n")
+	}
+	if len(q.LoopInits) > 0 {
+		script := q.Script
+		if i := strings.LastIndex(script, "(assert (not "); i >= 0 {
+			script = script[:i] + extra.String() + first.String() + script[i:]
+		}
+		q1 := &Query{Script: script, Inputs: q.Inputs, Expect: "unsat"}
+		ans := solveQuery(workdir, 700000+int(time.Now().UnixNano()%90000), hdr, q1, timeoutS, false)
+		decide(q1, ans)
+		if os.Getenv("PLENCVC_DEBUG") != "" {
+			fmt.Fprintf(os.Stderr, "minimise first-iteration query: %s (%d loop inits) %s\n", q1.Result, len(q.LoopInits), firstLines(q1.Output, 3))
+		}
+		if q1.Result == "sat" && q1.Model != nil {
+			return q1.Model
+		}
+	}
+	// the extra assertions must precede the negated goal (the last command of the script)
+	script := q.Script
+	if i := strings.LastIndex(script, "(assert (not "); i >= 0 {
+		script = script[:i] + extra.String() + script[i:]
+	} else {
+		script += extra.String()
+	}
+	q2 := &Query{Script: script, Inputs: q.Inputs, Expect: "unsat"}
 	ans := solveQuery(workdir, 900000+int(time.Now().UnixNano()%90000), hdr, q2, timeoutS, false)
 	decide(q2, ans)
 	if q2.Result == "sat" && q2.Model != nil {
 		return q2.Model
 	}
+	_ = pinned
 	return q.Model
 }
 
@@ -484,6 +547,20 @@ func replayObligation(ld *Loaded, specs *Specs, x *Exec, o *Obligation, q *Query
 	}
 	args, why := buildArgs(x.fn, model, pkg)
 	if args == nil {
+		// not callable directly: try the witness catalogue with the model's data bytes
+		if data, ok := modelBytes(x.fn, model, "data"); ok {
+			cr := catalogueReplay(x.key, data, workdir, repo)
+			if cr.Inputs == nil {
+				cr.Inputs = map[string]string{}
+			}
+			for k, v := range res.Inputs {
+				cr.Inputs["model:"+k] = v
+			}
+			if cr.How == "not-replayable" {
+				cr.Detail = why + "; " + cr.Detail
+			}
+			return cr
+		}
 		res.How = "not-replayable"
 		res.Detail = why
 		return res
@@ -723,4 +800,24 @@ func evalOnReal(specs *Specs, x0 *Exec, o *Obligation, args []concreteArg, out *
 		return false, fmt.Sprintf("clause holds on the real output %v", out.Results)
 	}
 	return false, "re-evaluation undecided: " + q.Result
+}
+
+// modelBytes extracts the contents of a []byte parameter from the model.
+func modelBytes(fn *ssa.Function, model map[string]string, name string) ([]byte, bool) {
+	lv, ok := model[name+"#2"]
+	if !ok {
+		return nil, false
+	}
+	n, ok := parseBV(lv)
+	if !ok || n > replayByteCap {
+		return nil, false
+	}
+	out := make([]byte, n)
+	for k := uint64(0); k < n; k++ {
+		if v, ok := model[fmt.Sprintf("%s[%d]", name, k)]; ok {
+			b, _ := parseBV(v)
+			out[k] = byte(b)
+		}
+	}
+	return out, true
 }
